@@ -25,11 +25,18 @@ def gen(tier, rng):
         n = rng.choice([0, 1, 2, 3, 5, 8, 13, 40, 100, 200]) if rng.chance(1, 3) else rng.range(0, 30)
         span = rng.choice([1, 3, 10, 1000, 10 ** 6])
         lists.append([rng.range(-span, span) for _ in range(n)])
+    # long columns (block sizes of any chunked / pairwise implementation: around 2^k, and far from it), increasing values so that
+    # the average of a tail block differs from the rest
+    longs = []
+    for n in ([1023, 1025, 2049, 5000] if tier == "quick" else [255, 257, 511, 513, 1023, 1024, 1025, 2047, 2049, 3000, 4097, 8193, 10000, 20001]):
+        longs.append(list(range(n)))
+        longs.append(rng.shuffle([rng.range(-1000, 1000) + (i // 64) * 7 for i in range(n)]))
+    lists += longs
     for l in lists:
         vs = " ".join(map(str, l))
         for op in ("min", "max", "sum", "mean"):
             lines.append(f"agg {op} {vs}".rstrip())
-    plists = lists if tier == "thorough" else lists[:: 3] + lists[-nrand:]
+    plists = lists if tier == "thorough" else lists[:: 3] + lists[-nrand - len(longs):]
     for l in plists:
         vs = " ".join(map(str, l))
         for (pn, pd) in PS:
